@@ -117,6 +117,15 @@ func VerifC06_ServiceWorker() {
 	rt.SchedYieldOnly(true)
 	m, ch := c06Module()
 	kind := rt.Choice("panic", c06Kinds)
+	// with module management on, the module may be enabled directly, as a
+	// dependency only, or already switched off but not yet stopped by a
+	// management pass: as long as it is online and not stopping, its service
+	// workers are restarted
+	mgmt := rt.Choice("management", 4)
+	moduleMgmtEnabled.SetTo(mgmt > 0)
+	m.enabled.SetTo(mgmt == 1)
+	m.enabledAsDependency.SetTo(mgmt == 2)
+	defer moduleMgmtEnabled.UnSet()
 	runs := 0
 	m.StartServiceWorker("sw", time.Millisecond, func(ctx context.Context) error {
 		runs++
